@@ -140,13 +140,16 @@ def finishSignal (c : Codec) (s : SigEnc) : SigEnc × Option (List Nat) :=
     (s', some (lebWrite (metaEncode s.maxStates (some data.length)) ++ data))   -- compress = id
   else (s', some (lebWrite (metaEncode s.maxStates none) ++ data))
 
+/-- one signal of the `finish_block` loop: (new encoders, offsets reversed, payloads reversed, running offset) -/
+def finishStep (c : Codec) (acc : Array SigEnc × List (Option Nat) × List (List Nat) × Nat) (s : SigEnc) :
+    Array SigEnc × List (Option Nat) × List (List Nat) × Nat :=
+  match finishSignal c s with
+  | (s', none) => (acc.1.push s', none :: acc.2.1, acc.2.2.1, acc.2.2.2)
+  | (s', some d) => (acc.1.push s', some acc.2.2.2 :: acc.2.1, d :: acc.2.2.1, acc.2.2.2 + d.length)
+
 /-- the per-signal loop of `finish_block`: new encoders, offsets, block data -/
 def finishSignals (c : Codec) (signals : Array SigEnc) : Array SigEnc × List (Option Nat) × List Nat :=
-  let step := fun (acc : Array SigEnc × List (Option Nat) × List (List Nat) × Nat) (s : SigEnc) =>
-    match finishSignal c s with
-    | (s', none) => (acc.1.push s', none :: acc.2.1, acc.2.2.1, acc.2.2.2)
-    | (s', some d) => (acc.1.push s', some acc.2.2.2 :: acc.2.1, d :: acc.2.2.1, acc.2.2.2 + d.length)
-  let r := signals.foldl step (#[], [], [], 0)
+  let r := signals.foldl (finishStep c) (#[], [], [], 0)
   (r.1, r.2.1.reverse, r.2.2.1.reverse.flatten)
 
 def finishBlock (c : Codec) (e : Enc) : Enc :=
